@@ -880,6 +880,15 @@ func (p *proxyObject) vmCall(vm *vm, n int) {
 	vm.pc++
 }
 
+// hasInstance is OrdinaryHasInstance(C, O) with C the proxy itself (reached from Function.prototype[@@hasInstance] and from
+// the instanceof fallback): C must be callable, and its "prototype" is looked up through the proxy, i.e. through the get trap.
+func (p *proxyObject) hasInstance(v Value) bool {
+	if p.call == nil {
+		panic(p.val.runtime.NewTypeError("Expecting a function in instanceof check, but got %s", p.val.toString()))
+	}
+	return hasInstance(p.val, v)
+}
+
 func (p *proxyObject) assertConstructor() func(args []Value, newTarget *Object) *Object {
 	if p.ctor != nil {
 		return p.construct
